@@ -48,10 +48,134 @@ def nan_guard(stmt, var):
     return appended_nan and terminates(stmt.body)
 
 
+class _CanonCalls(ast.NodeTransformer):
+    """spellings of the same library call that the rules read as one: the first parameter of the array constructors /
+    reducers / np.nditer passed by keyword (`np.nditer(op=[..])`, `xr.DataArray(data=a)`, `stat(a=cell)`), and
+    `seq.index(x, 0)` for `seq.index(x)`"""
+    FIRST = {'nditer': 'op', 'DataArray': 'data', 'array': 'object', 'asarray': 'a', 'reshape': 'a', 'isnan': 'x'}
+
+    def visit_Call(self, n):
+        self.generic_visit(n)
+        nm = short(n)
+        if not n.args and n.keywords and n.keywords[0].arg is not None:
+            k0 = n.keywords[0]
+            if self.FIRST.get(nm) == k0.arg or (k0.arg == 'a' and len(n.keywords) == 1):
+                n = ast.copy_location(ast.Call(func=n.func, args=[k0.value], keywords=list(n.keywords[1:])), n)
+        if nm == 'index' and isinstance(n.func, ast.Attribute) and len(n.args) == 2 and not n.keywords and const(n.args[1]) == 0 and \
+                isinstance(n.args[1], ast.Constant) and not isinstance(n.args[1].value, bool):
+            n = ast.copy_location(ast.Call(func=n.func, args=[n.args[0]], keywords=[]), n)
+        return n
+
+
+def _normalise_cell_walk(node):
+    """Three spellings are rewritten (on the copy the rules read) into the form the operators use today:
+    * the lock-step walk kept lazy - `cells = np.nditer(..)` ... `for [ref,] items in [zip(refs,] cells[)]: comb =
+      tuple(i.item() for i in items); BODY` - becomes `cells = []; for items in np.nditer(..): cells.append(tuple(..))`
+      followed by `for [ref,] comb in [zip(refs,] cells[)]: BODY` (the same cells in the same order);
+    * a reference list filled by a two-level append loop becomes the two-level comprehension;
+    * `out.append(sum(1 for item in comb if TEST))` becomes the counting loop with a per-cell counter."""
+    body = node.body
+
+    def is_nditer(e):
+        return isinstance(e, ast.Call) and short(e) == 'nditer'
+    # --- lazy walk
+    lazy = {s_.targets[0].id: s_ for s_ in body if isinstance(s_, ast.Assign) and len(s_.targets) == 1 and isinstance(s_.targets[0], ast.Name)
+            and is_nditer(s_.value)}
+    for nm, asg in lazy.items():
+        uses = [x for s_ in body for x in ast.walk(s_) if isinstance(x, ast.Name) and x.id == nm and isinstance(x.ctx, ast.Load)]
+        loops = [s_ for s_ in body if isinstance(s_, ast.For) and any(x in uses for x in ast.walk(s_.iter))]
+        if len(uses) != 1 or len(loops) != 1:
+            continue
+        lp = loops[0]
+        # the loop target bound to the walk's element
+        if isinstance(lp.iter, ast.Name):
+            tgt = lp.target
+        elif isinstance(lp.iter, ast.Call) and short(lp.iter) == 'zip' and isinstance(lp.target, ast.Tuple) and len(lp.target.elts) == len(lp.iter.args):
+            pos = [i_ for i_, a_ in enumerate(lp.iter.args) if isinstance(a_, ast.Name) and a_.id == nm]
+            tgt = lp.target.elts[pos[0]] if len(pos) == 1 else None
+        else:
+            tgt = None
+        if not isinstance(tgt, ast.Name) or not lp.body:
+            continue
+        first = lp.body[0]
+        if not (isinstance(first, ast.Assign) and len(first.targets) == 1 and isinstance(first.targets[0], ast.Name) and
+                isinstance(first.value, ast.Call) and isinstance(first.value.func, ast.Name) and first.value.func.id in ('tuple', 'list') and
+                len(first.value.args) == 1 and isinstance(first.value.args[0], (ast.GeneratorExp, ast.ListComp)) and
+                len(first.value.args[0].generators) == 1 and norm(first.value.args[0].generators[0].iter) == tgt.id):
+            continue
+        comb = first.targets[0].id
+        if any(isinstance(x, ast.Name) and x.id == tgt.id for s_ in lp.body[1:] for x in ast.walk(s_)):
+            continue
+        # build: nm = []; for tgt in nditer: nm.append(tuple(..)); and the loop over the materialised cells
+        fill = ast.For(target=ast.Name(id=tgt.id, ctx=ast.Store()), iter=asg.value,
+                       body=[ast.Expr(value=ast.Call(func=ast.Attribute(value=ast.Name(id=nm, ctx=ast.Load()), attr='append', ctx=ast.Load()),
+                                                     args=[first.value], keywords=[]))], orelse=[])
+        init = ast.Assign(targets=[ast.Name(id=nm, ctx=ast.Store())], value=ast.List(elts=[], ctx=ast.Load()))
+        for n_ in (fill, init):
+            ast.copy_location(n_, asg)
+        idx = body.index(asg)
+        body[idx:idx + 1] = [init, fill]
+        tgt.id = comb
+        lp.body = lp.body[1:]
+    # --- reference list filled by nested loops
+    for k_, s_ in enumerate(list(body)):
+        if isinstance(s_, ast.Assign) and isinstance(s_.targets[0], ast.Name) and isinstance(s_.value, ast.List) and not s_.value.elts:
+            nm = s_.targets[0].id
+            j = body.index(s_) + 1
+            if j < len(body) and isinstance(body[j], ast.For) and isinstance(body[j].target, ast.Name) and len(body[j].body) == 1 and \
+                    isinstance(body[j].body[0], ast.For) and isinstance(body[j].body[0].target, ast.Name) and \
+                    norm(body[j].body[0].iter) == body[j].target.id and len(body[j].body[0].body) == 1:
+                inner = body[j].body[0]
+                ap = inner.body[0]
+                if isinstance(ap, ast.Expr) and isinstance(ap.value, ast.Call) and short(ap.value) == 'append' and \
+                        norm(ap.value.func.value) == nm and len(ap.value.args) == 1 and norm(ap.value.args[0]) == inner.target.id:
+                    comp = ast.ListComp(elt=ast.Name(id=inner.target.id, ctx=ast.Load()), generators=[
+                        ast.comprehension(target=body[j].target, iter=body[j].iter, ifs=[], is_async=0),
+                        ast.comprehension(target=inner.target, iter=inner.iter, ifs=[], is_async=0)])
+                    new = ast.copy_location(ast.Assign(targets=[ast.Name(id=nm, ctx=ast.Store())], value=comp), s_)
+                    body[body.index(s_):j + 1] = [new]
+    # --- counting by sum(1 for item in comb if TEST)
+    for lp in [x for x in ast.walk(node) if isinstance(x, ast.For)]:
+        for k_, st in enumerate(list(lp.body)):
+            if isinstance(st, ast.Expr) and isinstance(st.value, ast.Call) and short(st.value) == 'append' and len(st.value.args) == 1:
+                a = st.value.args[0]
+                if isinstance(a, ast.Call) and isinstance(a.func, ast.Name) and a.func.id == 'sum' and len(a.args) == 1 and \
+                        isinstance(a.args[0], (ast.GeneratorExp, ast.ListComp)) and len(a.args[0].generators) == 1 and \
+                        const(a.args[0].elt) == 1 and len(a.args[0].generators[0].ifs) == 1 and not a.keywords:
+                    g = a.args[0].generators[0]
+                    cnt = '__count'
+                    init = ast.Assign(targets=[ast.Name(id=cnt, ctx=ast.Store())], value=ast.Constant(value=0))
+                    loop2 = ast.For(target=g.target, iter=g.iter, body=[ast.If(test=g.ifs[0], body=[
+                        ast.AugAssign(target=ast.Name(id=cnt, ctx=ast.Store()), op=ast.Add(), value=ast.Constant(value=1))], orelse=[])], orelse=[])
+                    st2 = ast.Expr(value=ast.Call(func=st.value.func, args=[ast.Name(id=cnt, ctx=ast.Load())], keywords=[]))
+                    for n_ in (init, loop2, st2):
+                        ast.copy_location(n_, st)
+                    i0 = lp.body.index(st)
+                    # the counter is reset where the cell's work begins: right after the NaN test that precedes it
+                    lp.body[i0:i0 + 1] = [init, loop2, st2]
+    ast.fix_missing_locations(node)
+    return node
+
+
+def _canonical_view(prog, f):
+    """the operator as the rules read it: helpers inlined (phases with loops included), library calls in one spelling"""
+    import copy
+    from ..inline import inline_view
+    v = inline_view(prog, f, allow_loops=True)
+    node = _CanonCalls().visit(copy.deepcopy(v.node))
+    node = _normalise_cell_walk(node)
+    ast.fix_missing_locations(node)
+    g = Func(f.module, node, f.parent)
+    g.jit = f.jit
+    g.children = f.children
+    return g
+
+
 def check_op(prog, rep, m, name):
     f = m.funcs.get(name)
     if f is None:
         raise AnalysisIncomplete('local.%s not found' % name)
+    f = _canonical_view(prog, f)
     # ---- the lock-step walk: np.nditer in the operator itself or in a module helper it calls (parameters bound)
     its = []          # (nditer call, function holding it, {helper parameter: caller expression text})
     cells = set()     # names of the per-cell list in f
@@ -207,8 +331,12 @@ def check_op(prog, rep, m, name):
     # ---- L3: NaN guard dominates every non-NaN append
     body = loop.body
     guard_pos = None
+    # copies of the cell that hold the same values (a sorted / list / tuple copy): NaN-ness is the same
+    same = {comb} | {s_.targets[0].id for s_ in body if isinstance(s_, ast.Assign) and isinstance(s_.targets[0], ast.Name) and
+                     isinstance(s_.value, ast.Call) and isinstance(s_.value.func, ast.Name) and s_.value.func.id in ('sorted', 'list', 'tuple') and
+                     len(s_.value.args) == 1 and not s_.value.keywords and norm(s_.value.args[0]) == comb}
     for i, s in enumerate(body):
-        if nan_guard(s, comb):
+        if any(nan_guard(s, v_) for v_ in same):
             guard_pos = i
             break
     appends = []
@@ -311,6 +439,8 @@ def check_op(prog, rep, m, name):
         for i, c in appends:
             got = norm(inline(c.args[0], {k: v for k, v in env.items() if k != comb}))
             ok = got in ('%s[ref - 1]' % comb,)
+            if got == 'sorted(%s)[ref - 1]' % comb:
+                ok = sorted_ok = True        # an ascending sorted copy indexed directly
         rep.add('L4', f, name, 'ascending sort then %s' % got, loop.lineno, ok and sorted_ok,
                 'rank must sort the cell values ascending (no reverse) and take element ref - 1')
         # private copy: iter_list holds lists created per cell (list(...) in the nditer loop), so sort() is private
